@@ -221,10 +221,15 @@ TEXTS['C13'] = {
             "scheduled and a refused read is told to wait exactly that sum including its own; a scheduled token is granted on "
             "its next attempt; a stream whose transfer failed raises that error at the next loop test, does not sleep again and "
             "leaves the queue; window bounds: over any stretch of first-attempt grants the bytes are at most (1/alpha) x max x "
-            "elapsed time (the statement's 1.25 x max x T, no burst term), and reads that had to wait are granted no earlier than a "
+            "elapsed time (the statement's 1.25 x max x T, no burst term) — also when refusals and grants to waiting reads are "
+            "interleaved in any way (window_first_attempts) — and reads that had to wait are granted no earlier than a "
             "FIFO server of rate max would finish them (so k waiting reads of amt bytes are not all granted before k x amt / max), "
-            "assuming each refused stream retries no earlier than told. Not proved: the combined bound '1.25 x max x T + burst' for "
-            "traffic mixing both kinds — the oracle measures "
+            "assuming each refused stream retries no earlier than told. DISPROVED for the code as it is (finding D17, recorded): the "
+            "statement's single bound '1.25 x max x T + burst' for all traffic together — smoothing_allowance_exceeded gives for every "
+            "burst allowance a history (one saturated stream, one paced stream) in which 1.4 x max x T bytes are granted; the check "
+            "replays the witness on the real LeakyBucket (correspondence corpus) and a stream-level variant on real "
+            "BandwidthLimitedStreams (160% of the limit sustained), prints KNOWN-FINDING, and holds the code to the sum of the two "
+            "separate bounds in mixed windows and to each separate bound in pure windows. The oracle measures "
             "windowed byte counts, waits and starvation of the real classes for 1-8 streams in virtual time under the "
             "deterministic scheduler (adversarial think times, late wake-ups, abandoned waiters). Defects D4 and D5 (rate "
             "stuck at infinity after two consumptions at one clock reading) were found and repaired; the tracked rate is proved to stay finite.",
